@@ -62,6 +62,9 @@ pub enum Case17 {
     TagsList { tags: Vec<String> },
     Material { index: usize, rgb: (u8, u8, u8) },
     LuaSample { name: String },
+    /// the alphabet value wrapped in a container value: an Attributes map (one entry, and next
+    /// to a second entry of another type), and for CFrames an OptionalCFrame
+    Nested { ty: String, label: String },
     /// blob -> value -> blob: every byte string of this length over the tag alphabet
     TagsBlobs { len: usize },
     /// blob -> value -> blob for MaterialColors: one blob length, several fillings
@@ -304,6 +307,21 @@ pub fn judge(c: &Case17) -> Vec<(String, String)> {
                 out.push((format!("serde|{}|{:?}", k, m), w));
             }
         }
+        Case17::Nested { ty, label } => {
+            let v = variant_of(ty, label);
+            let mut wrapped: Vec<(&str, Variant)> = Vec::new();
+            wrapped.push(("attributes-1", Variant::Attributes(rbx_types::Attributes::new().with("k", v.clone()))));
+            wrapped.push(("attributes-2", Variant::Attributes(rbx_types::Attributes::new().with("a", Variant::Bool(true)).with("k", v.clone()).with("z", Variant::String("s".into())))));
+            wrapped.push(("attributes-nested", Variant::Attributes(rbx_types::Attributes::new().with("outer", Variant::Attributes(rbx_types::Attributes::new().with("k", v.clone()))))));
+            if let Variant::CFrame(c) = &v {
+                wrapped.push(("optional-cframe", Variant::OptionalCFrame(Some(*c))));
+            }
+            for (how, w) in wrapped {
+                for (k, what) in check_variant(&w) {
+                    out.push((format!("serde-nested|{}|{}|{}|{}", how, ty, k, if label.len() < 40 { label.as_str() } else { "" }), what));
+                }
+            }
+        }
         Case17::TagsBlobs { len } => {
             // NUL, ASCII, the two bytes of "é" (valid only as a pair), a lone invalid byte
             let alpha = [0u8, b'a', b' ', 0xC3, 0xA9, 0xFF];
@@ -433,6 +451,11 @@ pub fn cases() -> Vec<Case17> {
             out.push(Case17::Variant { ty: crate::vals::type_name(t), label: l });
         }
     }
+    for t in all_types() {
+        for (l, _) in alphabet_ext(t) {
+            out.push(Case17::Nested { ty: crate::vals::type_name(t), label: l });
+        }
+    }
     for v in ref_values() {
         out.push(Case17::RefValue { value: format!("{:032x}", v) });
         out.push(Case17::RefText { value: format!("{:032x}", v) });
@@ -509,7 +532,7 @@ pub fn check(run: &Run) -> Value {
         "samples": total.samples.iter().map(|s| serde_json::from_str::<Value>(s).unwrap()).collect::<Vec<_>>(),
         "exhaustive": true,
         "exhaustive_subdomains": ["all 65536 u16 BrickColor numbers", "all 256 Faces and Axes bit sets", "every entry of rbx_dom_lua/src/allValues.json"],
-        "rule": "every alphabet value of every Variant type through serde_json (from_str, from_slice, from_reader, from_value, pretty text; finite floats), bincode and MessagePack (compact and named); all u16 through BrickColor number/name/serde; all 256 bit sets; Ref Display/FromStr over 0, MAX and every single-bit value; UniqueId Display/FromStr over the boundary product incl. negative random parts; Tags and MaterialColors value -> blob -> value, and blob -> value -> blob for every byte string of length <= 6 over {NUL, 'a', ' ', C3, A9, FF} (Tags) and blobs of every length 0..=300 in four fillings (MaterialColors: an accepted blob must re-encode to itself, reserved rows zeroed); every allValues.json sample decoded through three entry points and re-encoded",
+        "rule": "every alphabet value of every Variant type, bare and wrapped in Attributes maps (one entry, three entries, a map inside a map) and OptionalCFrame, through serde_json (from_str, from_slice, from_reader, from_value, pretty text; finite floats), bincode and MessagePack (compact and named); all u16 through BrickColor number/name/serde; all 256 bit sets; Ref Display/FromStr over 0, MAX and every single-bit value; UniqueId Display/FromStr over the boundary product incl. negative random parts; Tags and MaterialColors value -> blob -> value, and blob -> value -> blob for every byte string of length <= 6 over {NUL, 'a', ' ', C3, A9, FF} (Tags) and blobs of every length 0..=300 in four fillings (MaterialColors: an accepted blob must re-encode to itself, reserved rows zeroed); every allValues.json sample decoded through three entry points and re-encoded",
     })
 }
 
